@@ -10,6 +10,7 @@ namespace Resonate
 
 structure DriverState where
   db : Db := {}
+  sys : Option Sys := none
 
 def defsOf (d : String) : SqlDefs := if d == "pg" then Gen.Pg.defs else Gen.Sqlite.defs
 
@@ -20,6 +21,50 @@ def handleLine (st : DriverState) (line : String) : DriverState × Json :=
     match j.getObjValAs? String "op" with
     | .error e => (st, Json.mkObj [("fatal", s!"op: {e}")])
     | .ok "reset" => ({ db := {} }, Json.mkObj [("ok", true)])
+    | .ok "sys_init" =>
+      match (do
+          let cfg ← j.getObjValAs? Config "cfg"
+          let dialect := (j.getObjValAs? String "dialect").toOption.getD "sqlite"
+          let bg := (j.getObjValAs? Bool "bg").toOption.getD true
+          return ({ env := defaultEnv cfg, g := defsOf dialect, bgEnabled := bg } : Sys) : Except String Sys) with
+      | .error e => (st, Json.mkObj [("fatal", s!"sys_init: {e}")])
+      | .ok sys => ({ st with sys := some sys }, Json.mkObj [("ok", true)])
+    | .ok "submit" | .ok "tick" | .ok "exec" | .ok "complete" | .ok "crash" | .ok "shutdown" =>
+      match st.sys with
+      | none => (st, Json.mkObj [("fatal", "no system")])
+      | some sys =>
+        let op := (j.getObjValAs? String "op").toOption.getD ""
+        match (do
+            match op with
+            | "submit" =>
+              let tid ← j.getObjValAs? String "tid"
+              let r ← reqFromJson (← j.getObjVal? "req")
+              return Choice.submit tid r
+            | "tick" => return Choice.tick (← j.getObjValAs? Int "t")
+            | "exec" =>
+              let items ← j.getObjValAs? (Array Json) "items"
+              let its ← items.toList.mapM fun it => do
+                let tid ← it.getObjValAs? String "tid"
+                let seq ← it.getObjValAs? Nat "seq"
+                let mode := (it.getObjValAs? String "mode").toOption.getD "ok"
+                return (({ tid := tid, seq := seq } : SubId), failModeFromString mode)
+              return Choice.execStore its
+            | "complete" =>
+              let tid ← j.getObjValAs? String "tid"
+              let seq ← j.getObjValAs? Nat "seq"
+              let c ← cplFromJson (← j.getObjVal? "cpl")
+              return Choice.complete { tid := tid, seq := seq } c
+            | "crash" => return Choice.crash
+            | _ => return Choice.shutdown : Except String Choice) with
+        | .error e => (st, Json.mkObj [("fatal", s!"{op}: {e}")])
+        | .ok (.execStore items) =>
+          let (sys', err) := sys.execStore items
+          ({ st with sys := some sys' }, Json.mkObj [("err", match err with | some e => Json.str (storeErrToString e) | none => Json.null), ("db", toJson sys'.db)])
+        | .ok ch =>
+          let (sys', evs) := sys.step ch
+          ({ st with sys := some sys' },
+           Json.mkObj [("events", toJson (evs.map eventToJson)), ("halted", toJson sys'.halted),
+                       ("threads", toJson (sys'.threads.map (·.tid))), ("apiQ", toJson sys'.apiQ.length)])
     | .ok "batch" =>
       let dialect := (j.getObjValAs? String "dialect").toOption.getD "sqlite"
       match (do
